@@ -5,10 +5,12 @@ import (
 	"errors"
 	"fmt"
 	"os"
+	"strings"
 	"sync"
 	"testing"
 	"time"
 
+	"github.com/codenotary/immudb/embedded/ahtree"
 	"github.com/codenotary/immudb/embedded/store"
 	"pgregory.net/rapid"
 
@@ -87,7 +89,8 @@ type renv struct {
 	cur    *source
 	lastN  uint64
 
-	overlap, discards, reopens, switched, bufferFull, maxActive, dupRefused int
+	overlap, discards, reopens, switched, bufferFull, maxActive, dupRefused, outOfOrder int
+	staleOrder                                                                     bool
 }
 
 func (r *renv) failf(format string, args ...any) {
@@ -102,6 +105,7 @@ func (r *renv) open() {
 		r.failf("replica: open: %v", err)
 	}
 	r.st = st
+	r.staleOrder = false
 }
 
 func (r *renv) want(id uint64) *ltx {
@@ -264,6 +268,13 @@ func (r *renv) replicate(rt *rapid.T) {
 			r.maxActive++
 			failed = true
 			desc += "m"
+		case r.staleOrder && i > 0 && (errors.Is(err, ahtree.ErrUnexistentData) || errors.Is(err, store.ErrUnexpectedError) || strings.Contains(err.Error(), "invalid blRoot")):
+			// DiscardPrecommittedTxsSince does not take back the in-memory precommit watermark ReplicateTx waits on: until the
+			// next restart a call may run before its predecessor is precommitted; it then checks its BlRoot against a hash tree
+			// that does not hold the predecessor yet (or still holds a discarded leaf) and is refused, to be retried
+			r.outOfOrder++
+			failed = true
+			desc += "o"
 		default:
 			r.failf("ReplicateTx(%d) on the replica (committed %d, precommitted %d): %v", id, r.st.LastCommittedTxID(), p, err)
 		}
@@ -337,6 +348,7 @@ func (r *renv) discard(rt *rapid.T, since uint64) {
 		r.failf("DiscardPrecommittedTxsSince(%d) with committed=%d precommitted=%d: (%d, %v)", since, n, p, k, err)
 	}
 	r.discards++
+	r.staleOrder = true
 	r.c.Descf("D%d", since)
 	r.check(fmt.Sprintf("after DiscardPrecommittedTxsSince(%d)", since), false)
 }
@@ -358,12 +370,30 @@ func (r *renv) rediscard() {
 			if _, err := r.st.DiscardPrecommittedTxsSince(id); err != nil {
 				r.failf("after reopen: DiscardPrecommittedTxsSince(%d): %v", id, err)
 			}
+			r.staleOrder = true
 			return
 		}
 	}
 }
 
 func (r *renv) reopen(rt *rapid.T) {
+	if r.st.LastCommittedTxID() == 0 && r.st.LastPrecommittedTxID() > 0 && vk.Excluded("K02b-first-tx-stale-blroot-after-discard") {
+		// known finding K02b (second trigger, see TestHistoryImmutableExternalAllowance): tx 1 is committed before the restart
+		countK02b()
+		if r.allowLimit() == 0 {
+			r.c.Descf("skipK02b")
+			return
+		}
+		if err := r.st.AllowCommitUpto(1); err != nil {
+			r.failf("AllowCommitUpto(1): %v", err)
+		}
+		ctx, cancel := context.WithTimeout(context.Background(), waitBound)
+		err := r.st.WaitForTx(ctx, 1, false)
+		cancel()
+		if err != nil {
+			r.failf("AllowCommitUpto(1): not committed within %v: %v", waitBound, err)
+		}
+	}
 	if err := r.st.Close(); err != nil {
 		r.failf("replica: Close: %v", err)
 	}
@@ -379,7 +409,7 @@ func (r *renv) reopen(rt *rapid.T) {
 }
 
 func TestReplicaFollowsPrimary(t *testing.T) {
-	vk.Check(t, 240, 12000, func(rt *rapid.T, c *vk.Case) {
+	vk.Check(t, 240, 6000, func(rt *rapid.T, c *vk.Case) {
 		cfg := stx.GenCfg(rt)
 		cfg.Compression = 0
 		cfg.MaxTxEntries = rapid.SampledFrom([]int{8, 32}).Draw(rt, "maxTxEntries2")
@@ -470,6 +500,7 @@ func TestReplicaFollowsPrimary(t *testing.T) {
 		lab(r.bufferFull > 0, "precommit-buffer-full")
 		lab(r.maxActive > 0, "max-active-transactions-hit")
 		lab(r.dupRefused > 0, "duplicate-replication-refused")
+		lab(r.outOfOrder > 0, "out-of-order-refused-after-discard")
 		lab(txLogChunks(r.dir) > 1, "tx-log-rotated")
 		lab(rcfg.Synced, "synced")
 		lab(cfg.Embedded, "embedded-values")
